@@ -64,6 +64,9 @@ func makeAnnoCase(r *fw.Rng, thorough bool, format, form string, vp gen.VarProfi
 	if thorough && r.Chance(0.03) {
 		L = r.Range(601, 3000)
 	}
+	if opts.GenomeLen > 0 {
+		L = opts.GenomeLen
+	}
 	if format == "gb" {
 		opts.AllowUnnamed = false
 	}
